@@ -641,6 +641,10 @@ def op_plans(ctx, reps):
                 cplx = rng.random() < 0.3
                 if p == 'constant':
                     c = rng.choice([0, 0, 2, -1.5] if not cplx else [0, 0, 1 + 2j, -3])
+                    if rep == 0 and nd == 1:      # every class/method: one affine instance,
+                        c = 2 if not cplx else 1 + 2j
+                    if rep == 0 and nd == 2:      # and one linear instance with constant padding
+                        c = 0
                 else:
                     c = rng.choice([0, 0, 0, 3])
                 axis = rng.randrange(nd) if kind == 'pd' else None
@@ -1055,7 +1059,7 @@ def run(ctx):
     fd_general_stream(ctx, [2, 3, 5, 7] if ctx.quick else [2, 3, 4, 5, 6, 7, 10])
     fd_variants_stream(ctx, 4 if ctx.quick else 30)
     ops_stream(ctx, 1 if ctx.quick else 12)
-    ops_matrix_stream(ctx, [(2,), (3,), (2, 3)] if ctx.quick else
+    ops_matrix_stream(ctx, [(2,), (3,), (2, 3), (2, 2, 2)] if ctx.quick else
                       [(2,), (3,), (4,), (5,), (2, 2), (2, 3), (3, 2), (3, 4), (2, 2, 2),
                        (2, 3, 2), (3, 2, 3)])
     want = {'fd/{}/{}/n={}'.format(m, p, nclass(n)) for m in METHODS for p in PADS
